@@ -66,6 +66,9 @@ func (s *Snapshot) IterationsStarted() uint64 {
 	return s.SuccessfulIterationDurations.Count + s.FailedIterationDurations.Count
 }
 
-func (s *Snapshot) FailedIterationsRate() uint64 {
-	return s.FailedIterationDurations.Count * 100 / s.Iterations()
+// FailedIterationsRateExceeds reports whether the share of failed iterations among all
+// iterations is strictly greater than ratePercent. Comparing by cross-multiplication keeps the
+// result exact and defined when there are no iterations.
+func (s *Snapshot) FailedIterationsRateExceeds(ratePercent uint64) bool {
+	return s.FailedIterationDurations.Count*100 > ratePercent*s.Iterations()
 }
